@@ -9,12 +9,12 @@ SV=/var/tmp/seedverif-$name
 head=$(git -C /repo rev-parse HEAD)
 rm -rf "$W" "$SV"; git -C /repo worktree prune
 git -C /repo worktree add --detach "$W" "$head" -q || exit 2
-mkdir -p "$SV"; cp -r /verif/claims "$SV/"; cp /verif/known_findings.json "$SV/"
+mkdir -p "$SV"; cp -r /verif/claims "$SV/"; cp /verif/known_findings.json "$SV/"; cp /verif/bin/govc "$SV/govc"
 out=/verif/seeded/$name; mkdir -p "$out"
 cp "$seed"/patch.diff "$out/"; cp "$seed"/*.go "$seed"/run.sh "$seed"/notes.md "$out/" 2>/dev/null
 log="$out/eval.log"; : > "$log"
 echo "== control: check $prop on the unchanged tree" >> "$log"
-/verif/bin/govc check -prop "$prop" -tier quick -repo "$W" -verif "$SV" > "$out/control.out" 2>&1; rc_control=$?
+"$SV/govc" check -prop "$prop" -tier quick -repo "$W" -verif "$SV" > "$out/control.out" 2>&1; rc_control=$?
 grep -v "^loaded" "$out/control.out" | tail -3 >> "$log"
 if [ "$rc_control" != 0 ]; then echo "$name CONTROL-FAILED (check does not pass on the unchanged tree: fix that first)"; git -C /repo worktree remove --force "$W" 2>/dev/null; rm -rf "$W" "$SV"; exit 3; fi
 echo "== demo on unchanged tree" >> "$log"
@@ -36,7 +36,7 @@ if [ "$apply" = ok ]; then
   fi
   echo "== baseline: $bl" >> "$log"
   echo "== check $prop on changed tree" >> "$log"
-  /verif/bin/govc check -prop "$prop" -tier quick -repo "$W" -verif "$SV" > "$out/check.out" 2>&1; rc_check=$?
+  "$SV/govc" check -prop "$prop" -tier quick -repo "$W" -verif "$SV" > "$out/check.out" 2>&1; rc_check=$?
   cat "$out/check.out" | grep -v "^loaded" >> "$log"
 else
   rc_check=-1
